@@ -204,6 +204,77 @@ pub fn run<D: Dec>(rep: &mut Report) {
     }
     rep.count(&format!("{}_ordered_pairs_of_distinct_make_sequences_on_one_decoder", set_name(set)), hist_pairs);
 
+    // ---- in any history: a sequence in break form (Set 2: contains F0; Set 1: last byte has bit 7) never decodes as a
+    //      press, and a sequence in make form never decodes as a release
+    {
+        use crate::rng::Rng;
+        let r = ref_for(set);
+        let typist = Typist::new(set, &r);
+        let mut streams: Vec<Vec<u8>> = Vec::new();
+        let sp = special_sequences(set);
+        for a in sp.iter() {
+            for b in sp.iter() {
+                let mut v = a.clone();
+                v.extend(b);
+                streams.push(v);
+            }
+        }
+        let n_hist = if rep.thorough() { 20_000 } else { 1_500 };
+        for h in 0..n_hist {
+            let mut rng = Rng::fork(rep.seed, 0xC19_0000 + ((h as u64) << 4) + set as u64);
+            streams.push(typist.generate(h % 6, &mut rng, if h < 6 { 60_000 } else { 200 }));
+        }
+        let mut seqs_seen = 0u64;
+        for bytes in streams.iter() {
+            let res = guarded(|| {
+                let mut d = D::fresh();
+                let mut seg: Vec<u8> = Vec::new();
+                let mut bad: Option<(Vec<u8>, String, usize)> = None;
+                let mut n = 0u64;
+                for (i, b) in bytes.iter().enumerate() {
+                    seg.push(*b);
+                    let r = d.advance_state(*b);
+                    if matches!(r, Ok(None)) {
+                        if seg.len() > 4 {
+                            seg.clear();
+                        }
+                        continue;
+                    }
+                    n += 1;
+                    let break_form = if set == 2 { seg.contains(&0xF0) } else { *b & 0x80 != 0 && *b != 0xE0 && *b != 0xE1 || (seg.len() > 1 && *b & 0x80 != 0) };
+                    if let Ok(Some(e)) = &r {
+                        let wrong = (break_form && e.state == KeyState::Down) || (!break_form && e.state == KeyState::Up);
+                        if wrong && bad.is_none() {
+                            bad = Some((seg.clone(), res_str(&r), i));
+                        }
+                    }
+                    seg.clear();
+                }
+                (bad, n)
+            });
+            if let Ok((bad, n)) = res {
+                seqs_seen += n;
+                rep.evaluations += n;
+                if let Some((seg, got, i)) = bad {
+                    let hist = &bytes[i.saturating_sub(24)..=i];
+                    rep.violate(
+                        format!("C19|{}|form-vs-state|seq=[{}]|got={}", set_name(set), hex_bytes(&seg), got),
+                        format!(
+                            "{}: after … [{}] the sequence [{}], which is in {} form, decoded as {}",
+                            set_name(set),
+                            hex_bytes(hist),
+                            hex_bytes(&seg),
+                            if got.starts_with("Down") { "break" } else { "make" },
+                            got
+                        ),
+                        replay(set, &[hist], "a break form never presses, a make form never releases", &got),
+                    );
+                }
+            }
+        }
+        rep.count(&format!("{}_sequences_checked_for_form_vs_state_in_histories", set_name(set)), seqs_seen);
+    }
+
     for (dir, map) in [("press", &downs), ("release", &ups)] {
         for (k, seqs) in map.iter() {
             if seqs.len() > 1 {
